@@ -254,14 +254,15 @@ pub fn families() -> Vec<Box<dyn Family>> {
         ),
         family(
             "big_landmarks",
-            "two long mostly unrelated sequences (1500..4800 items each, thorough up to 12000; distinct one-sided fillers) sharing 5..80 in-order landmark items, a few of them crossing: the anchor search runs through thousands of rounds (D ~ N+M)",
+            "two long mostly unrelated sequences (3500..6000 items each, thorough 5000..12000; distinct one-sided fillers) sharing 5..80 in-order landmark items, a few of them crossing: the anchor search runs through thousands of rounds (D ~ N+M)",
             false,
             1,
             |cfg| if cfg.tiny { 1 } else { cfg.tier.pick(10, 60) },
             |idx, cfg, out| {
                 let mut rng = Rng::for_case(cfg.seed, "c15.big_landmarks", idx);
-                let hi = if cfg.tiny { 12 } else { cfg.tier.pick(4800, 12_000) };
-                let lo = if cfg.tiny { 6 } else { 1500 };
+                // N + M above 8192 (and above 16384 in the thorough tier) in most cases
+                let hi = if cfg.tiny { 12 } else { cfg.tier.pick(6000, 12_000) };
+                let lo = if cfg.tiny { 6 } else { cfg.tier.pick(3500, 5000) };
                 let (n, m) = (rng.range(lo, hi), rng.range(lo, hi));
                 let k = rng.range(5, 80);
                 let crossing = rng.below(4);
